@@ -63,7 +63,7 @@ def C01(tier):
             "workload shape (pingpong/flood/mixed/chain/gate/starve), 2-12 foreign client threads, a perturbation profile at the "
             "library's atomics and a CPU-affinity mask (pool size); non-trivial = consecutive items of one domain ran on different "
             "threads (cross-thread hand-off observed); distinct = distinct (graph, shape, profile kind, set of library atomic "
-            "sites reached, bucketed overlap/hand-off counts) signatures")
+            "sites reached, bucketed overlap/hand-off counts) signatures; additional job classes: legacy queues whose target queue is changed (custom, global, default, ephemeral, workloop targets), suspended and resumed by other threads while clients use them; directed failpoint schedules (redirected waiter: h_waiter; pending barrier + suspend: h_suspend pbar); trials under a signal storm (EINTR in every blocking call); ASan with stack-use-after-return detection")
     return jobs, floors, rule
 
 
@@ -101,7 +101,7 @@ def C02(tier):
     rule = ("one case = one trial of N client threads using every submission API (async/sync/barrier_*/async_and_wait, block and "
             "_f forms) on 1-3 serial queues (plus the main queue in h_mainq) under a drawn perturbation profile and affinity mask; "
             "oracle: interval-overlap + real-time FIFO over call/return/start/end stamps, a plain lost-update counter, and TSan on "
-            "plain per-queue memory; non-trivial = items of a queue ran on different threads; distinct = distinct trial signatures")
+            "plain per-queue memory; non-trivial = items of a queue ran on different threads; distinct = distinct trial signatures; plus serial legacy queues retargeted while in use and serial / concurrent queues over the main queue")
     return jobs, floors, rule
 
 
@@ -168,7 +168,7 @@ def C04(tier):
             "group_async; block and _f forms) on 1-2 concurrent queues under a perturbation profile and affinity mask; oracle: "
             "a barrier body overlaps no other body of the queue, ordering before/after each barrier by submission real time, "
             "readers never observe a half-finished barrier write (plain words + TSan); non-trivial = reader/reader overlaps were "
-            "observed in the trial (so exclusion of barriers is not vacuous)")
+            "observed in the trial (so exclusion of barriers is not vacuous); plus concurrent legacy queues retargeted, suspended and resumed while in use, and the directed pending-barrier schedule")
     return jobs, floors, rule
 
 
@@ -201,7 +201,7 @@ def C05(tier):
             "items of a serial queue pass a plain chained record, callers read item results after sync return / group_wait / "
             "notify / semaphore_wait / dispatch_once; oracle: value checks on this machine + ThreadSanitizer (library atomics "
             "promoted to release/acquire = x86-TSO) reporting any hand-off without a synchronisation chain; non-trivial = the "
-            "writer and the reader of the edge were different threads")
+            "writer and the reader of the edge were different threads; plus the directed redirected-waiter schedule (canary over the waiter's stack, ASan stack-use-after-return), retargeted queues under TSan, and trials under a signal storm")
     return jobs, floors, rule
 
 
@@ -331,7 +331,7 @@ def C06(tier):
             "retarget, pre-activation suspends) with 2-6 submitting threads, nesting depths 1-300, resumes from threads / other "
             "queues / dispatch_after, under a perturbation profile and affinity mask; oracle: no item start inside a definitely-"
             "suspended interval (at most one for foreign suspends of a serial queue), none before activate, everything pending runs "
-            "after the last resume; non-trivial = at least one suspension interval was checked in the trial")
+            "after the last resume; non-trivial = at least one suspension interval was checked in the trial; plus the directed pending-barrier schedule (h_suspend pbar): a concurrent queue suspended while its drainer retries must run everything after the resume")
     return jobs, floors, rule
 
 
@@ -541,7 +541,7 @@ def C17(tier):
             "AddressSanitizer + LeakSanitizer (asan flavor) for use-after-free / double free / leaks, finalizer exactly once, on the "
             "target queue, with the context current at release, not before the object's items finished, child before parent, "
             "everything finalised at quiescence; trial line = batch of scenarios; the same ASan build also runs the queue-graph, "
-            "source-cancellation, block-object, data-object and timer harnesses")
+            "source-cancellation, block-object, data-object and timer harnesses; plus retargeted / ephemeral target queues and the redirected-waiter schedule under ASan+LSan")
     return jobs, floors, rule
 
 
